@@ -443,9 +443,16 @@ def fext_layout(chk):
                 parts_lists.add(st.targets[0].id)
                 skin_len = env[st.value.elts[0].id]
                 continue
+            if isinstance(st, ast.Assign) and isinstance(st.targets[0], ast.Name) and isinstance(st.value, ast.List) and not st.value.elts and cont is None:
+                parts_lists.add(st.targets[0].id)       # parts = [] ; parts.append(skin vector) ; ...
+                continue
             if isinstance(st, ast.Expr) and isinstance(st.value, ast.Call) and isinstance(st.value.func, ast.Attribute) and st.value.func.attr == 'append' \
                     and isinstance(st.value.func.value, ast.Name) and st.value.func.value.id in parts_lists and len(st.value.args) == 1 and isinstance(st.value.args[0], ast.Name):
                 term = env.get(st.value.args[0].id)
+                if cont is None and inner[0] == 0:
+                    # appended outside the loops over the stiffeners: the skin block, which has to come first
+                    skin_len = term if (skin_len is None and not order) else ('NOT-FIRST',)
+                    continue
                 if order and len(order[-1]) > 3 and order[-1][0] == cont and order[-1][3] == 'parts' and cont is not None and inner[0] == 0:
                     order[-1][1].append(term)
                 else:
